@@ -155,3 +155,33 @@ Definition consec_catmull (cps : list PCP) : bool := zcc (map zcp cps).
    f32 and read back as f64) *)
 Definition fmt_f32_int (fmt_f32 : F32 -> str) (fmt_int : Z -> str) : Prop :=
   forall n, Z.abs n < 2 ^ 24 -> fmt_f32 (S.of_Z n) = fmt_int n.
+
+(* ---------- slider lines ---------- *)
+
+(* the length the encoder writes: the expected distance, or the length of the computed curve *)
+Definition written_len (dist_of : Z -> list PCP -> option F64 -> outcome F64) (s : Slider) : outcome F64 :=
+  match sl_expected_dist s with
+  | Some d => Done d
+  | None => slider_curve_dist dist_of s
+  end.
+
+(* within the coordinate limit: what the decoder's length field accepts.  Its negation is the
+   known finding D21 (computed length above MAX_COORDINATE_VALUE, or NaN) *)
+Definition len_ok (d : F64) : bool :=
+  negb (D.is_nan d) && D.le (D.neg coord_lim64) d && D.le d coord_lim64.
+Definition d21_class (d : F64) : bool := negb (len_ok d).
+
+(* [slider_ok h s d]: start time within the parse limits, sample data representable, integer
+   position within +-MAX_COORDINATE_VALUE, combo offset 0..7, repeat count 0..8999 (span count
+   within the cap), control points in the decoder's image and outside D13 / D17 / consecutive
+   Catmull, written length [d] outside D21 *)
+Definition slider_ok (h : HitObject) (s : Slider) (d : F64) : bool :=
+  in_lim64 (h_start h) && forallb sample_ok (h_samples h) &&
+  coord_ok (px (sl_pos s)) && coord_ok (py (sl_pos s)) &&
+  (0 <=? sl_combo_offset s) && (sl_combo_offset s <=? 7) &&
+  (0 <=? sl_repeat_count s) && (sl_repeat_count s <? repeat_cap) &&
+  forallb (forallb sample_ok) (sl_node_samples s) &&
+  path_image (sl_pos s) (sl_control_points s) &&
+  negb (d13_class (sl_control_points s)) && negb (d17_class (sl_control_points s)) &&
+  negb (consec_catmull (sl_control_points s)) &&
+  len_ok d.
